@@ -59,6 +59,8 @@ ASSUMPTIONS = [
 TESTED_NOT_PROVED = []
 
 ERR = {"KeyError": 1, "ValueError": 2, "IndexError": 4}
+KEY_LABEL_DOMAIN = "C16:strings-label-domain"        # known_findings.d/C16.json
+KEY_NAME_CLASH = "C16:bipartite-name-clash"
 VALID_LABEL = re.compile(r"[A-Za-z][A-Za-z0-9_]*\Z")
 VALID_RULE = re.compile(r"[!-~]+\Z")          # non-empty, printable ASCII without blank
 
@@ -287,30 +289,47 @@ def oracle(case):
         if k == "bip":
             _, fl, do_imp, mol_attr = v
             # the flag combinations that claim invertibility: ids and coefficients are exported
-            if not (do_imp and fl["eid"] and fl["st"] and _names_ok(fl, H, edges)):
+            if not (do_imp and fl["eid"] and fl["st"]):
                 continue
-            H2 = cv.bipartite_to_hypergraph(_export_bip(H, fl), mol_attr=("mol" if mol_attr else None))
-            e2 = _edges_of(H2)
+            clash = not _names_ok(fl, H, edges)     # un-prefixed string ids: a species label equals a reaction id (known finding)
+            try:
+                H2 = cv.bipartite_to_hypergraph(_export_bip(H, fl), mol_attr=("mol" if mol_attr else None))
+                e2 = _edges_of(H2)
+                got = dict(H2.species_to_mol)
+            except (KeyError, ValueError) as ex:
+                e2, got = "raised %r" % (ex,), {}
+            bad = []
             if e2 != edges:
-                fails.append(dict(clause="bipartite-roundtrip", detail="view %d %r: reactions %r came back as %r" % (vi, fl, edges, e2)))
-            if fl["mol"] and mol_attr:
+                bad.append(dict(clause="bipartite-roundtrip", detail="view %d %r: reactions %r came back as %r" % (vi, fl, edges, e2)))
+            elif fl["mol"] and mol_attr:
                 # every label of a species that occurs in a reaction comes back, and nothing is invented
                 # (a label on a kept, reaction-less species may or may not survive: the property is about reactions)
                 want = {s: m for s, m in mol.items() if s in occ}
-                got = dict(H2.species_to_mol)
                 if any(got.get(s, None) != m or s not in got for s, m in want.items()) or any(s not in mol or mol[s] != m for s, m in got.items()):
-                    fails.append(dict(clause="bipartite-mol", detail="view %d %r: molecule labels %r came back as %r"
-                                      % (vi, fl, want, got)))
+                    bad.append(dict(clause="bipartite-mol", detail="view %d %r: molecule labels %r came back as %r"
+                                    % (vi, fl, want, got)))
+            for b in bad:
+                if clash:
+                    b["key"] = KEY_NAME_CLASH
+                fails.append(b)
         elif k == "str":
             _, inc_rule, inc_id, srt, dr, ps, pf = v
-            if not (inc_rule and ps and _valid_strings_domain(edges)):
+            if not (inc_rule and ps):
                 continue
+            in_domain = _valid_strings_domain(edges)   # outside it the text format is ambiguous (known finding)
             lines = cv.hypergraph_to_rxn_strings(H, include_rule_suffix=inc_rule, include_edge_id=inc_id, sort=srt)
-            H2 = cv.rxns_to_hypergraph(lines, default_rule=dr, parse_rule_from_suffix=ps, prefer_suffix=pf)
             a = Counter(repr((r, sorted(l.items()), sorted(p.items()))) for r, l, p in edges.values())
-            b = Counter(repr((r, sorted(l.items()), sorted(p.items()))) for r, l, p in _edges_of(H2).values())
+            try:
+                H2 = cv.rxns_to_hypergraph(lines, default_rule=dr, parse_rule_from_suffix=ps, prefer_suffix=pf)
+                back = _edges_of(H2)
+                b = Counter(repr((r, sorted(l.items()), sorted(p.items()))) for r, l, p in back.values())
+            except (KeyError, ValueError, IndexError) as ex:
+                back, b = "raised %r" % (ex,), None
             if a != b:
-                fails.append(dict(clause="strings-roundtrip", detail="view %d: %r printed as %r parsed as %r" % (vi, edges, lines, _edges_of(H2))))
+                f = dict(clause="strings-roundtrip", detail="view %d: %r printed as %r parsed as %r" % (vi, edges, lines, back))
+                if not in_domain:
+                    f["key"] = KEY_LABEL_DOMAIN
+                fails.append(f)
         elif k == "sg":
             if not all(l and r for _, l, r in edges.values()):
                 continue
@@ -319,7 +338,7 @@ def oracle(case):
             b = {e: (l, r) for e, (_, l, r) in _edges_of(H2).items()}
             if a != b:
                 fails.append(dict(clause="species-graph-roundtrip", detail="view %d: %r came back as %r" % (vi, a, b)))
-    return fails[:3]
+    return fails[:6]
 
 
 def shrink(case, fl):
